@@ -1,3 +1,4 @@
+import Marwood.Proofs.Tables
 import Marwood.Lemmas.Parse
 import Marwood.Lemmas.LexSpans
 /-!
